@@ -6,3 +6,10 @@ import CssVerif.Props.C18
 #print axioms CssVerif.C18.deleted_detached
 #print axioms CssVerif.C18.deleted_top_detached
 #print axioms CssVerif.C18.snapshot_getter
+#print axioms CssVerif.C18.owners_init
+#print axioms CssVerif.C18.owners_fresh
+#print axioms CssVerif.C18.owners_parent
+#print axioms CssVerif.C18.owners_step
+#print axioms CssVerif.C18.owners_reachable
+#print axioms CssVerif.C18.owners_reachable_text
+#print axioms CssVerif.C18.owners_alias
